@@ -197,8 +197,17 @@ double ndsplineeval_deriv(const struct splinetable* table, const double* x,
 	
 int splinetable_convolve(struct splinetable* table, const int dim,
                          const double* knots, size_t n_knots){
-	auto& real_table=*static_cast<photospline::splinetable<>*>(table->data);
-	real_table.convolve(dim, knots, n_knots);
+	if(!table || !table->data || !knots)
+		return(1);
+	try{
+		auto& real_table=*static_cast<photospline::splinetable<>*>(table->data);
+		real_table.convolve(dim, knots, n_knots);
+	}catch(std::exception& ex){
+		fprintf(stderr,"%s\n",ex.what());
+		return(1);
+	}catch(...){
+		return(1);
+	}
 	return(0);
 }
 	
